@@ -331,6 +331,11 @@ def run(ctx):
     # Calculate wrappers
     class P2(Policy):
         try_mode = "ok_only"
+
+        def inline(self, fn, args, interp, path):
+            # a private helper of the wrappers (`with_deepex(self, |d| ..)`): part of the wrapper
+            b_ = interp.callee_body(fn)
+            return b_ is not None and b_["path"].startswith("expression::calculate::") and not b_.get("trait_default_of") and not b_.get("public")
     for meth, pat in (("operate_unary", r"^expression::Express::from_deepex\(%soperate_unary\(expression::Express::to_deepex\(self_\), repr\)\)$" % DEEP),
                       ("operate_binary", r"^expression::Express::from_deepex\(%soperate_bin\(expression::Express::to_deepex\(self_\), expression::Express::to_deepex\(other\), repr\)\)$" % DEEP)):
         bs = fb.find_bodies(lambda b, meth=meth: b["kind"] == "AssocFn" and b.get("name") == meth and b.get("trait_default_of", "").endswith("calculate::Calculate"))
